@@ -126,6 +126,7 @@ type ModelKeeper interface {
 type DidKeeper interface {
 	GetCosmosPaymentAddress(ctx sdk.Context, did string) (sdk.AccAddress, error)
 	GetSidDocument(ctx sdk.Context, versionId string) (val types2.SidDocument, found bool)
+	IsSidDocumentOfDid(ctx sdk.Context, did string, versionId string) bool
 	ValidDid(ctx sdk.Context, did string) error
 	CreatorIsBoundToDid(ctx sdk.Context, creator, did string) error
 	GetBuiltinDids(ctx sdk.Context) string
